@@ -318,7 +318,13 @@ func (s *EMTState) edgeMultiComputeRecordSpecs(raw []RawType, frameIndexOfraw0 F
 		if !x.triggerFound {
 			break
 		}
-		t, u, v = u, v, FrameIndex(x.triggerInd)+frameIndexOfraw0
+		triggerInd := x.triggerInd
+		if triggerInd < maxLookback {
+			// The kink model can move a trigger found on the first searchable sample back by one;
+			// a record there would start before the available data. Keep it on that first sample.
+			triggerInd = maxLookback
+		}
+		t, u, v = u, v, FrameIndex(triggerInd)+frameIndexOfraw0
 		recordSpec, valid := edgeMultiShouldRecord(t, u, v, s.npre, s.nsamp, s.mode)
 		if valid {
 			recordSpecs = append(recordSpecs, recordSpec)
